@@ -5,7 +5,6 @@ import time
 import traceback
 import types
 from asyncio import CancelledError, Future, Task, ensure_future, gather, get_running_loop, iscoroutinefunction, sleep
-from contextlib import suppress
 from functools import wraps
 from threading import RLock
 from typing import TYPE_CHECKING, Any
@@ -290,8 +289,8 @@ class TaskManager:
             tasks = self.cancel_all_pending_tasks()
 
         if tasks:
-            with suppress(CancelledError):
-                await gather(*tasks)
+            # Wait for every cancelled task to really finish (a task may need time to clean up after its cancellation).
+            await gather(*tasks, return_exceptions=True)
 
         for post_shutdown_task, args, kwargs in self._shutdown_tasks:
             if iscoroutinefunction(post_shutdown_task):
